@@ -68,6 +68,11 @@ def observe_ctx(c, ids, camel=False):
         out += [4000, len(layers)]
         for l in layers:
             out += ser_fids(l, ids)
+        for tag, want in ((5000, 0), (6000, 1)):
+            layers = c.collect_functions(n, predicate=lambda fd, ctx, want=want: ids[id(fd)] % 2 == want, use_convention=use)
+            out += [tag, len(layers)]
+            for l in layers:
+                out += ser_fids(l, ids)
     return out
 
 
